@@ -286,7 +286,10 @@ func TestVerifC12Hostile(t *testing.T) {
 			case 2:
 				filter = WrapLimitSubscriptionFilter(NewAllowlistSubscriptionFilter("t", "u", "f", "out"), c.Range(1, 50))
 			}
-			opts := []Option{WithDefaultValidator(NewBasicSeqnoValidator(store, c20Discard)), WithMaxMessageSize(1 << 20)}
+			// (validators that run inside the validation workers instead of goroutines of their own: a worker then also hands the
+			// validated message back to the event loop itself)
+			inlineVal := c.Chance(0.4)
+			opts := []Option{WithDefaultValidator(NewBasicSeqnoValidator(store, c20Discard), WithValidatorInline(inlineVal)), WithMaxMessageSize(1 << 20)}
 			if filter != nil {
 				opts = append(opts, WithSubscriptionFilter(filter))
 			}
@@ -323,6 +326,7 @@ func TestVerifC12Hostile(t *testing.T) {
 					pme = nil
 				}
 			}
+			r.n.rsSize = []int{10, 100, 400}[c.Intn(3)]
 			if err := r.Start(router, opts...); err != nil {
 				c.Inconclusive("node: %v", err)
 				return
@@ -343,7 +347,7 @@ func TestVerifC12Hostile(t *testing.T) {
 					}
 				}
 				return ValidationAccept
-			})
+			}, WithValidatorInline(inlineVal))
 			var topicOpts []TopicOpt
 			if router == "gossipsub" && pme != nil && c.Chance(0.5) {
 				topicOpts = append(topicOpts, RequestPartialMessages())
@@ -380,8 +384,19 @@ func TestVerifC12Hostile(t *testing.T) {
 				return append(vAllGossipProtos, FloodSubID)[c.Intn(5)]
 			}
 			H := r.NewPuppet("honest", protoFor(), "")
-			O := r.NewPuppet("observer", protoFor(), "")
-			for _, p := range []*vPuppet{H, O} {
+			oProto := protoFor()
+			if router == "randomsub" {
+				oProto = FloodSubID // randomsub samples among randomsub peers and always serves floodsub peers: the observer must be served
+			}
+			O := r.NewPuppet("observer", oProto, "")
+			crowd := []*vPuppet{H, O}
+			if router == "randomsub" {
+				// a crowd of further quiet subscribers (a router that samples its recipients has something to sample from)
+				for i, k := 0, c.Range(3, 10); i < k; i++ {
+					crowd = append(crowd, r.NewPuppet(fmt.Sprintf("quiet%d", i), protoFor(), ""))
+				}
+			}
+			for _, p := range crowd {
 				if err := r.Attach(p, c.Chance(0.5)); err != nil {
 					c.Inconclusive("attach")
 					return
@@ -485,6 +500,25 @@ func TestVerifC12Hostile(t *testing.T) {
 					vSettle(30 * time.Millisecond)
 					classes["pxflood"]++
 					c.Count("px_dials_started", len(nd.h.Connects()))
+					if !probe(what) {
+						break
+					}
+					continue
+				}
+				if c.Chance(0.06) {
+					// one well-formed RPC with far more fresh, correctly signed messages for the subscribed topic than the
+					// validation queue, the workers and the hand-back channel hold together
+					k := c.Range(80, 250)
+					rpc := &pb.RPC{}
+					for j := 0; j < k; j++ {
+						bseq++
+						rpc.Publish = append(rpc.Publish, vSignedMsg(p.key, "t", vSeqno(bseq), []byte(fmt.Sprintf("flood-%d", bseq))))
+					}
+					what := fmt.Sprintf("msgflood (%d signed messages in one RPC) from %s (%s)", k, p.name, p.protos[0])
+					c.Crumb("%s", what)
+					p.Send(me, rpc)
+					vSettle(30 * time.Millisecond)
+					classes["msgflood"]++
 					if !probe(what) {
 						break
 					}
